@@ -60,7 +60,7 @@ func NewTreeGen(r *Rand) *TreeGen {
 }
 
 var litByWant = map[Want][]string{
-	WNumber: {"0", "1", "-1", "2", "1.5", "10", "-0.5", "3"},
+	WNumber: {"0", "1", "-1", "2", "1.5", "10", "-0.5", "3", "16777217", "123456789"},
 	WString: {`"a"`, `"b"`, `""`, `"ab"`, `"é"`, `"10"`},
 	WBool:   {"true", "false"},
 	WNull:   {"null"},
@@ -121,7 +121,7 @@ func (g *TreeGen) atom(w Want) *Expr {
 		return g.fieldFor(w)
 	case 5, 6:
 		if w == WString && g.R.Bool() {
-			return Raw(Pick(g.R, []string{"a", "", "b", "ab", "é"}))
+			return Raw(Pick(g.R, []string{"a", "", "b", "ab", "é", "x y", "x  y", "x\ty", "it's", "o'k'"}))
 		}
 		return g.literalFor(w)
 	case 7:
@@ -258,6 +258,15 @@ func (g *TreeGen) chain(d int, w Want) *Expr {
 			}
 			return Chain(g.Expr(d, src), StIndexS(g.Int()))
 		default:
+			if g.Funcs && r.Chance(1, 2) {
+				// a dotted path ending in a function call: obj.key.f(@ …)
+				fn := Pick(r, []string{"type", "to_string", "not_null", "length", "to_array", "to_number"})
+				args := []*Expr{Current()}
+				if fn == "not_null" {
+					args = append(args, Raw("n/a"))
+				}
+				return Chain(g.Expr(d, WObject), StField(Pick(r, TypedKeys[g.pickWant()])), StFunc(fn, args...))
+			}
 			return Chain(g.Expr(d, WArrObj), StIndexS(g.Int()), StField(Pick(r, TypedKeys[g.keyWant(w)])))
 		}
 	}
